@@ -55,6 +55,12 @@ import EsbuildModel.Impl.CssLexDriver
 import EsbuildModel.Impl.StdioAsync
 import EsbuildModel.Impl.StmtPrintDriver
 import EsbuildModel.Impl.InteropWire
+import EsbuildModel.Impl.Calc
+import EsbuildModel.Impl.SmChunkDriver
+import EsbuildModel.Impl.TargetsDriver
+import EsbuildModel.Impl.IdentLexDriver
+import EsbuildModel.Impl.ChunkNamesDriver
+import EsbuildModel.Impl.RegexLex
 
 open EsbuildModel
 
@@ -120,6 +126,12 @@ def dispatch (kernel : String) (args : List String) : String :=
   | "stdioasync" => StdioAsync.driver args
   | "stmtprint" => StmtPrintDriver.driver args
   | "interop" => Interop.driver args
+  | "calc" => Calc.driver args
+  | "smchunk" => SmChunk.driver args
+  | "targets" => Targets.driver args
+  | "identlex" => IdentLex.driver args
+  | "chunknames" => ChunkNames.driver args
+  | "regexlex" => RegexLex.driver args
   | _ => "bad-kernel"
 
 partial def loop (hin hout : IO.FS.Stream) : IO Unit := do
